@@ -64,3 +64,92 @@ Proof.
   destruct (decode_flush st); cbn; [rewrite app_nil_r|]; reflexivity.
 Qed.
 
+
+(* ------------------------------------------------------------------ inside a multi-byte character *)
+
+(* what is known about the bits collected so far: enough to see that the character being assembled is not ASCII *)
+Definition dwf (st : dstate) : Prop :=
+  (128 <= d_lower st)%N /\
+  match d_needed st with
+  | 0%nat => True
+  | 1%nat => (2 <= d_cp st)%N
+  | 2%nat => (1 <= d_cp st)%N \/ (160 <= d_lower st)%N
+  | 3%nat => (1 <= d_cp st)%N \/ (144 <= d_lower st)%N
+  | _ => False
+  end.
+
+Lemma dwf_init : dwf d_init.
+Proof. unfold dwf, d_init. cbn. split; [lia|exact I]. Qed.
+
+Lemma utf8_len_cases b :
+  (utf8_len b = 1%nat /\ (b <= 127)%N) \/ (utf8_len b = 2%nat /\ (194 <= b <= 223)%N) \/
+  (utf8_len b = 3%nat /\ (224 <= b <= 239)%N) \/ (utf8_len b = 4%nat /\ (240 <= b <= 244)%N) \/ utf8_len b = 0%nat.
+Proof.
+  unfold utf8_len.
+  destruct (b <=? 127)%N eqn:E1; [left; split; [reflexivity|apply N.leb_le; exact E1]|].
+  destruct ((194 <=? b)%N && (b <=? 223)%N) eqn:E2.
+  { right. left. apply andb_true_iff in E2. destruct E2 as [A B]. apply N.leb_le in A, B. auto. }
+  destruct ((224 <=? b)%N && (b <=? 239)%N) eqn:E3.
+  { right. right. left. apply andb_true_iff in E3. destruct E3 as [A B]. apply N.leb_le in A, B. auto. }
+  destruct ((240 <=? b)%N && (b <=? 244)%N) eqn:E4.
+  { right. right. right. left. apply andb_true_iff in E4. destruct E4 as [A B]. apply N.leb_le in A, B. auto. }
+  right. right. right. right. reflexivity.
+Qed.
+
+Lemma decode_byte_dwf st b o st' :
+  dwf st -> decode_byte st b = Some (o, st') ->
+  dwf st' /\
+  (d_needed st <> 0%nat -> match o with Some c => (128 <= c)%N | None => True end) /\
+  (o = None -> d_needed st' <> 0%nat).
+Proof.
+  intros [Hl Hw] H. unfold decode_byte in H. destruct (d_needed st) as [|k] eqn:En.
+  - destruct (utf8_len_cases b) as [[E A]|[[E A]|[[E A]|[[E A]|E]]]]; rewrite E in H; inversion H; subst; clear H.
+    + split; [apply dwf_init|]. split; [congruence|discriminate].
+    + split; [|split; [congruence|intros _; cbn; discriminate]]. unfold dwf. cbn. split; lia.
+    + split; [|split; [congruence|intros _; cbn; discriminate]]. unfold dwf. cbn.
+      destruct (N.eqb b 224) eqn:Eb; [apply N.eqb_eq in Eb; subst; split; [lia|right; lia]|apply N.eqb_neq in Eb; split; [lia|left; lia]].
+    + split; [|split; [congruence|intros _; cbn; discriminate]]. unfold dwf. cbn.
+      destruct (N.eqb b 240) eqn:Eb; [apply N.eqb_eq in Eb; subst; split; [lia|right; lia]|apply N.eqb_neq in Eb; split; [lia|left; lia]].
+  - destruct ((d_lower st <=? b)%N && (b <=? d_upper st)%N) eqn:Eb; [|discriminate].
+    apply andb_true_iff in Eb. destruct Eb as [A B]. apply N.leb_le in A, B.
+    destruct k as [|[|[|k]]]; inversion H; subst; clear H.
+    + split; [apply dwf_init|]. split; [intros _; lia|discriminate].
+    + split; [|split; [auto|intros _; cbn; discriminate]]. unfold dwf. cbn. split; [lia|]. destruct Hw; lia.
+    + split; [|split; [auto|intros _; cbn; discriminate]]. unfold dwf. cbn. split; [lia|]. left. destruct Hw; lia.
+    + contradiction.
+Qed.
+
+Lemma decode_chunk_dwf : forall bs st s st', dwf st -> decode_chunk st bs = Some (s, st') -> dwf st'.
+Proof.
+  induction bs as [|b r IH]; intros st s st' Hw H; cbn in H; [inversion H; subst; exact Hw|].
+  destruct (decode_byte st b) as [[o st1]|] eqn:Eb; [|discriminate].
+  destruct (decode_chunk st1 r) as [[s2 st2]|] eqn:Er; [|discriminate]. inversion H; subst.
+  destruct (decode_byte_dwf _ _ _ _ Hw Eb) as (W1 & _). exact (IH _ _ _ W1 Er).
+Qed.
+
+(* a decoder that is inside a character delivers a non-ASCII character first *)
+Lemma decode_chunk_inside : forall bs st c s st',
+  dwf st -> d_needed st <> 0%nat -> decode_chunk st bs = Some (c :: s, st') -> (128 <= c)%N.
+Proof.
+  induction bs as [|b r IH]; intros st c s st' Hw Hn H; cbn in H; [discriminate|].
+  destruct (decode_byte st b) as [[o st1]|] eqn:Eb; [|discriminate].
+  destruct (decode_chunk st1 r) as [[s2 st2]|] eqn:Er; [|discriminate].
+  destruct (decode_byte_dwf _ _ _ _ Hw Eb) as (W1 & A & B).
+  destruct o as [ch|].
+  - inversion H; subst. exact (A Hn).
+  - inversion H; subst. apply (IH st1 c s st' W1 (B eq_refl) Er).
+Qed.
+
+(* a non-empty chunk that decodes to nothing leaves the decoder inside a character *)
+Lemma decode_chunk_silent : forall bs st st',
+  dwf st -> bs <> [] -> decode_chunk st bs = Some ([], st') -> d_needed st' <> 0%nat.
+Proof.
+  induction bs as [|b r IH]; intros st st' Hw Hne H; [congruence|]. cbn in H.
+  destruct (decode_byte st b) as [[o st1]|] eqn:Eb; [|discriminate].
+  destruct (decode_chunk st1 r) as [[s2 st2]|] eqn:Er; [|discriminate].
+  destruct (decode_byte_dwf _ _ _ _ Hw Eb) as (W1 & A & B).
+  destruct o as [ch|]; [discriminate|]. inversion H; subst.
+  destruct r as [|b2 r2].
+  - cbn in Er. inversion Er; subst. apply B. reflexivity.
+  - apply (IH st1 st' W1 ltac:(discriminate) Er).
+Qed.
